@@ -38,8 +38,8 @@ ATTRS = {"Doc": {"author": "hasAuthor", "date": "hasDate", "version": "hasDocVer
                   "id": "hasId"}}
 VAR = {"Doc": "d", "Sec": "s", "Prop": "p"}
 POOL = {"author": ["Ada", "Bob Ray", u"Zo\u00eb \u00c5ngstr\u00f6m"], "version": ["v1", "2"], "name": ["alpha", "beta", "gamma"],
-        "type": ["rec", "stim/noise"], "definition": ["def one", "other def", u"Gr\u00f6\u00dfe \u65e5\u672c"], "reference": ["ref1", "ref2"],
-        "unit": ["mV", "s"], "value_origin": ["file.dat", "other.bin"], "uncertainty": [0.5, 2, "3.5", 2.0, 1, 1.0],
+        "type": ["rec", "stim/noise", "n.s."], "definition": ["def one", "other def", u"Gr\u00f6\u00dfe \u65e5\u672c"], "reference": ["ref1", "ref2"],
+        "unit": ["mV", "s", "%"], "value_origin": ["file.dat", "other.bin"], "uncertainty": [0.5, 2, "3.5", 2.0, 1, 1.0],
         "dtype": ["int", "string", "float"]}
 
 
